@@ -222,8 +222,7 @@ def r5(ctx):
     ctx.check(P, rule, "the None key pair belongs to the open branch", nones and all(fa.dominates(tr, x) for x in nones), "None assigned only under options.open", "None key pair assigned outside the open branch")
 
 
-def r6(ctx):
-    rule = "C12.R6"
+def r6(ctx, P=P, rule="C12.R6"):
     fa = ctx.real_body(NEW, [OPLOG_OPEN])
     if not need(ctx, P, rule, NEW, fa):
         return
@@ -264,9 +263,18 @@ def r6(ctx):
                       "fresh() and Header::decode are on disjoint paths", "fresh() is reachable on a path that also decodes a stored header")
 
 
-RULES = [r1, r2, r3, r4, r5, r6]
+def r7(ctx):
+    """a crash while the two header slots are being rewritten (make_read_only) is recovered through
+    the slot fallback of Oplog::open: the header bits remembered for each combination of valid slots
+    must agree with the slot whose header is used, otherwise the entries written under it are
+    dropped and the recovered core has lost data (same clause as C07.R5 / C06.R7)"""
+    from . import c07
+    c07.r5(ctx, P, "C12.R7")
+
+
+RULES = [r1, r2, r3, r4, r5, r6, r7]
 CONTROLS = ["c12_secret_exported_elsewhere"]
-EXPLANATION = ("C12 (secret key hygiene): decides that every effect of append_batch is dominated by the Some(secret) arm and the None arm returns Err(NotWritable) "
+EXPLANATION = ("C12 (secret key hygiene): [R7: the header-slot fallback that recovers a crash during make_read_only remembers header bits consistent with the slot it uses] decides that every effect of append_batch is dominated by the Some(secret) arm and the None arm returns Err(NotWritable) "
                "effect-free (R1); that make_read_only clears both in-memory copies before a ?-checked flush with clear_traces = true and returns Ok(true) only after it (R2); "
                "that a trace-clearing flush rewrites both header slots, each padded to the whole 4096-byte slot with zeros (R3); that SigningKey bytes are exported by exactly "
                "one function, used only inside the oplog header encoder, itself reached only through insert_header (R4); that open together with a key pair is rejected before "
